@@ -24,8 +24,8 @@ for pid in ALL:
 na = [{'property_id': pid, 'reason': props.NOT_APPLICABLE.get(pid, 'no check registered yet: harness under construction')} for pid in ALL if pid not in [c['property_id'] for c in checks]]
 m = {'version': 1,
      'setup_cmd': 'python3-vt -c "import z3, sys; sys.exit(0)" && which clang++-14 cbmc gdb c++filt >/dev/null',
-     'hooks': {'guard': 'BOOST_MQTT5_VERIF', 'enable': 'checks compile the harness TUs with -DBOOST_MQTT5_VERIF (no guarded code exists in /repo: stubs enter through template parameters and -I/verif/shadow)',
-               'baseline_off_cmd': 'cmake --build /repo/_build && ctest --test-dir /repo/_build/test -j8 --timeout 900', 'source_commits': [], 'add_only': True},
+     'hooks': {'guard': 'BOOST_MQTT5_VERIF', 'enable': 'checks compile the harness TUs with -DBOOST_MQTT5_VERIF. One guarded hook exists in /repo (commit 98026c6, include/boost/mqtt5/detail/async_mutex.hpp): async_mutex::unlock() reports whether the mutex was locked (its documented precondition) to the callback boost_mqtt5_verif_mutex_unlock defined in harness/vk_api.h. Everything else enters through template parameters and -I/verif/shadow',
+               'baseline_off_cmd': 'cmake --build /repo/_build && ctest --test-dir /repo/_build/test -j8 --timeout 900', 'source_commits': ['98026c6'], 'add_only': True},
      'engines': [{'name': 'symir+z3', 'path': 'vk/symir.py', 'serves_properties': [c['property_id'] for c in checks if 'symir' in c['engine']], 'kind_free_text': 'own path-forking symbolic interpreter over clang-14 LLVM IR of the real headers; z3 decides every branch and assertion'},
                  {'name': 'ir2c+cbmc', 'path': 'vk/ir2c.py', 'serves_properties': [c['property_id'] for c in checks if 'cbmc' in c['engine']], 'kind_free_text': 'own LLVM IR -> C translator, CBMC 6.11 bounded model checker (leaf kernels, cross-check of engine B)'}],
      'checks': checks,
